@@ -111,6 +111,12 @@ def plans(run):
         variants.append({'script': schedules(2)['lock-step'][0], 'sibling': 'other', 'sibling_alone_script': schedules(2)['lock-step'][1]})
         cfg = dict(base, N=2, r=2.5, seed=sd, kpre=1, nsym=3, iters_limit=3, eps=1e-9, density=2, variants=variants, tags=['two-dimensional'])
         out.append((cfg, 'N=2 f#%d: 1 concrete + 2 arbitrary values; other N=2 solver on a different box, 3 schedules vs alone' % sd))
+    # two solvers on the SAME Problem object with different evolvent densities (all values arbitrary; same point => same value)
+    variants = [{'script': [('iter', 2), ('solve',)], 'sibling': None},
+                {'script': [('other', 1), ('iter', 1), ('other', 1), ('iter', 1), ('solve',)], 'sibling': 'same-problem'},
+                {'script': [('iter', 1), ('other', 2), ('iter', 1), ('solve',), ('other', 1)], 'sibling': 'same-problem'}]
+    out.append((dict(base, N=2, r=2.5, seed=0, kpre=0, nsym=4, iters_limit=3, eps=1e-9, density=2, variants=variants, tags=['same-problem-object']),
+                'N=2, all values arbitrary: a second solver on the same Problem object with another density, 2 schedules vs alone'))
     # both solvers refine their result (minimize contract stub): the Solution kept by the first must survive the second's refinement
     for kind in ('same', 'other'):
         variants = [{'script': [('iter', 2), ('solve',)], 'sibling': None},
@@ -146,7 +152,7 @@ def main():
     agp.confirm(run, WANT)
     run.finish('with another solver created and iterated in between under every listed schedule, each solver makes the trials it makes alone, '
                'its record and result are unchanged and a Solution obtained earlier still reports its own optimum',
-               vacuity=['compose', 'symbolic-values', 'sibling-same', 'sibling-other', 'two-dimensional', 'with-refinement', 'default-parameters'])
+               vacuity=['compose', 'symbolic-values', 'sibling-same', 'sibling-other', 'two-dimensional', 'with-refinement', 'default-parameters', 'same-problem-object'])
 
 
 if __name__ == '__main__':
